@@ -50,6 +50,8 @@ def ev(tree, env):
     if k == "call":
         return FUNCS[tree[1]](*[ev(a, env) for a in tree[2:]])
     a, b = ev(tree[1], env), ev(tree[2], env)
+    if k == "^":
+        return a ** b
     if k == "+":
         return a + b
     if k == "-":
@@ -97,6 +99,9 @@ def to_str(tree, style=0, parent=0, right=False):
         return f"{tree[1]}({(',' + sp).join(to_str(a, style) for a in tree[2:])})"
     if k == "past":
         return f"past({tree[1]},{sp}{float(tree[2])!r})"
+    if k == "^":
+        # general power with an expression as exponent: both sides parenthesised in every style
+        return f"({to_str(tree[1], style)}){'^' if style == 1 else '**'}({to_str(tree[2], style)})"
     if style == 3:
         if k == "neg":
             return f"(-{to_str(tree[1], style)})"
